@@ -70,6 +70,16 @@ Next == x' = x
                 jobs.append({"fe": rnd.choice(corpus.FES), "rate": 44100, "bps": rnd.choice([8, 16, 24]), "channels": ch,
                              "opts": {"block_size": bs, "max_lpc": rnd.choice([-1, 8]), "max_po": rnd.choice([0, 5]), "padding": -1, "seektable": "none"},
                              "pcm": {"signal": "ntc:%d" % (k * bs), "seed": rnd.randint(1, 10 ** 6), "frames": (k + 6) * bs}, "tag": "history"})
+    # loud noise no predictor gains on, with the most negative value somewhere in every block (at 32 bits the FIXED family cannot code
+    # the differences it makes; whichever candidates remain must still be measured against the verbatim size)
+    for bps in (32, 32, 24, 16, 8):
+        for g in (16, 64, 4096):
+            for pct in ((60, 71, 80, 90, 97, 100) if t == "thorough" or g < 4096 else (80, 97)):
+                for pos in (0, 1, g // 2, g - 1):
+                    jobs.append({"fe": rnd.choice(corpus.FES), "rate": 44100, "bps": bps, "channels": rnd.choice([1, 1, 2]),
+                                 "opts": {"block_size": g, "max_lpc": rnd.choice([8, 12, 32, 1]), "max_po": rnd.choice([0, 5, 6]), "padding": -1, "seektable": "none",
+                                          "window": rnd.choice(corpus.WINDOWS)},
+                                 "pcm": {"signal": "loudrail:%d:%d:%d" % (g, pct, pos), "seed": rnd.randint(1, 10 ** 6), "frames": g * 2 + rnd.choice([0, 7])}, "tag": "loudrail"})
     parts = [jobs[i::8] for i in range(8)]
 
     def drive(ip):
